@@ -1,7 +1,7 @@
 (* C06 witnesses: the full statements fail on the model of the code as it is (vm_compute), and the
    hypotheses of the theorems are inhabited. *)
 From Coq Require Import List Bool Arith.
-From PAFC06 Require Import Model Proofs Proofs2 Proofs3.
+From PAFC06 Require Import Model Proofs Proofs2 Proofs3 Gen Naming Naming2.
 Import ListNotations.
 
 Definition cD : cfg := mkcfg Drawer 0 false false true false.    (* Drawer, folder kept, no samples table *)
@@ -177,3 +177,48 @@ Example drawer_repaired_same_disk :
   plan_out repaired_all cDz 0 [] empty_fs = inr (mkres 0 (Some 0) true)
   /\ fs_eqb (run_full repaired_all cDz 0 [] empty_fs) (run_full repaired cDz 0 [] empty_fs) = true.
 Proof. vm_compute. split; reflexivity. Qed.
+
+(* ---------- several fits in one output directory (Naming.v) ---------- *)
+From Coq Require Import String.
+Open Scope string_scope.
+Open Scope list_scope.
+Definition pA : path := [S_ "demo"; S_ "gauss_v1.0"].
+Definition pB : path := [S_ "demo"; S_ "gauss_v1.5"].
+Definition pC : path := [S_ "demo"; S_ "gauss_v1"].          (* a prefix of both, up to the last dot *)
+
+Example legal_pA : legal pA. Proof. apply legalb_sound. vm_compute. reflexivity. Qed.
+Example legal_pB : legal pB. Proof. apply legalb_sound. vm_compute. reflexivity. Qed.
+Example legal_pC : legal pC. Proof. apply legalb_sound. vm_compute. reflexivity. Qed.
+Example pA_pB_differ : pA <> pB. Proof. vm_compute. discriminate. Qed.
+
+(* the naming scheme on the dotted names: nothing after the last dot is dropped *)
+Example zip_of_pA : zip_of pA = [S_ "demo"; S_ "gauss_v1.0.zip"]. Proof. vm_compute. reflexivity. Qed.
+Example ziptmp_of_pA : ziptmp_of pA = [S_ "demo"; S_ "gauss_v1.0.zip.tmp"]. Proof. vm_compute. reflexivity. Qed.
+Example folder_example :
+  folder (mkfit [S_ "p"; S_ "q"] [] (S_ "g.1") (Some (S_ "abc"))) = [S_ "p"; S_ "q"; S_ "g.1"; S_ "abc"].
+Proof. vm_compute. reflexivity. Qed.
+
+(* hypotheses of C06_names_separate / C06_neighbours_* are inhabited, and the conclusion says something *)
+Example names_separate_witness : forall x y, In x (names pA) -> In y (names pB) -> x <> y.
+Proof. apply names_separate; [exact legal_pA | exact legal_pB | exact pA_pB_differ]. Qed.
+
+Definition two_fit_runs : list grun :=
+  [mkgrun pA 0 [] None; mkgrun pB 1 [] None; mkgrun pA 2 [] (Some (3, VBefore)); mkgrun pB 3 [] None].
+Example two_fit_runs_legal : forall r, In r two_fit_runs -> legal (g_fit r).
+Proof. intros r [E|[E|[E|[E|[]]]]]; subst r; simpl; auto using legal_pA, legal_pB. Qed.
+(* non-vacuity: after fit A completed, fit B's first run still samples; A's result is stored and stays *)
+Example neighbour_first_run_samples :
+  plan_sampled repaired cDz 1 [] (read pB (ghistory repaired cDz [mkgrun pA 0 [] None] empty_disk)) = true.
+Proof. vm_compute. reflexivity. Qed.
+Example neighbour_stored_witness :
+  storedb cDz 0 (read pA (ghistory repaired cDz two_fit_runs empty_disk)) = true
+  /\ storedb cDz 1 (read pB (ghistory repaired cDz two_fit_runs empty_disk)) = true.
+Proof. vm_compute. split; reflexivity. Qed.
+
+(* the guard `legal` is needed: a name ending in ".zip" is the archive name of another fit *)
+Example C06_names_collide_unguarded_refuted :
+  exists p q, p <> q /\ p <> [] /\ q <> [] /\ In p (names q).
+Proof. exists [S_ "x.zip"], [S_ "x"]. split; [vm_compute; discriminate|]. split; [discriminate|]. split; [discriminate|].
+  right; left. vm_compute. reflexivity. Qed.
+Example illegal_name : legalb [S_ "x.zip"] = false /\ legalb [S_ "x.zip.tmp"] = false /\ legalb [] = false.
+Proof. vm_compute. repeat split. Qed.
